@@ -28,6 +28,7 @@ import (
 	"github.com/tendermint/tendermint/crypto"
 	"github.com/tendermint/tendermint/crypto/ed25519"
 	"github.com/tendermint/tendermint/crypto/tmhash"
+	"github.com/tendermint/tendermint/evidence"
 	tmmath "github.com/tendermint/tendermint/libs/math"
 	"github.com/tendermint/tendermint/light"
 	"github.com/tendermint/tendermint/light/provider"
@@ -352,7 +353,25 @@ func (p *prov) LightBlock(ctx context.Context, height int64) (*types.LightBlock,
 func (p *prov) ReportEvidence(_ context.Context, ev types.Evidence) error {
 	if lca, ok := ev.(*types.LightClientAttackEvidence); ok {
 		p.env.mu.Lock()
-		p.env.evidence = append(p.env.evidence, fmt.Sprintf("%d:%d:%d", p.id, p.env.hdrID(lca.ConflictingBlock.Hash()), lca.CommonHeight))
+		var byz []string
+		ids := map[int]int64{}
+		var order []int
+		for _, v := range lca.ByzantineValidators {
+			id := addrID[string(v.Address)]
+			ids[id] = v.VotingPower
+			order = append(order, id)
+		}
+		sort.Ints(order)
+		for _, id := range order {
+			byz = append(byz, fmt.Sprintf("%d/%d", id, ids[id]))
+		}
+		bs := "-"
+		if len(byz) > 0 {
+			bs = strings.Join(byz, "+")
+		}
+		p.env.evidence = append(p.env.evidence, fmt.Sprintf("%d:%d:%d:%d:%d:%s", p.id, p.env.hdrID(lca.ConflictingBlock.Hash()), lca.CommonHeight,
+			lca.TotalVotingPower, lca.Timestamp.Sub(time.Unix(baseSec, 0)).Milliseconds(), bs))
+		p.env.evRecs = append(p.env.evRecs, evRec{op: p.env.curOp, recv: p.id, ev: lca})
 		p.env.mu.Unlock()
 	}
 	return nil
@@ -587,7 +606,18 @@ type env struct {
 	gate     *gate
 	curOp    int
 	replies  []reply
+	evRecs   []evRec
 	dead     bool
+}
+
+type evRec struct {
+	op, recv int
+	ev       *types.LightClientAttackEvidence
+}
+
+type caseLog struct {
+	replies []reply
+	evs     []evRec
 }
 
 type lightStore = lstore.Store
@@ -826,7 +856,7 @@ func execCase(c core.Case) []string {
 	e := &env{vss: map[int]*vsDesc{}, blks: map[int]*blkDesc{}, provs: map[int]*prov{}, vsIDs: map[string]int{}, hdrIDs: map[string]int{}}
 	e.gate = newGate()
 	defer e.gate.close()
-	defer func() { sideLog.Store(caseKey(c), e.replies) }()
+	defer func() { sideLog.Store(caseKey(c), caseLog{e.replies, e.evRecs}) }()
 	var out []string
 	for opIdx, op := range c.Ops {
 		e.curOp = opIdx
@@ -1266,8 +1296,10 @@ func oracle(c core.Case, out []string) []core.Finding {
 	var fs []core.Finding
 	v, okLog := sideLog.Load(caseKey(c))
 	var replies []reply
+	var evRecs []evRec
 	if okLog {
-		replies = v.([]reply)
+		replies = v.(caseLog).replies
+		evRecs = v.(caseLog).evs
 	}
 	// rebuild the descriptor universe (hash ids by re-running the cheap ops)
 	e := &env{vss: map[int]*vsDesc{}, blks: map[int]*blkDesc{}, vsIDs: map[string]int{}, hdrIDs: map[string]int{}}
@@ -1499,6 +1531,15 @@ func oracle(c core.Case, out []string) []core.Finding {
 						Desc: fmt.Sprintf("op %d: attack reported but no evidence was sent to any provider", i)})
 				}
 			}
+			// (d) evidence handed to a provider must be acceptable to a full node holding that
+			// provider's chain: height, time, total voting power and byzantine validators are the
+			// ones the node derives from its own blocks (evidence.VerifyLightClientAttack + block time)
+			for _, er := range evRecs {
+				if er.op != i {
+					continue
+				}
+				fs = append(fs, e.checkEvidence(c, i, er)...)
+			}
 			prev = st
 			prevEv = len(ev)
 		}
@@ -1535,6 +1576,70 @@ func reachable(p params, prev []storeEntry, target storeEntry, byHash map[int][]
 		}
 	}
 	return false
+}
+
+// provTable: the block table of a plainly scripted provider (no overrides, no late blocks).
+func (e *env) provTable(c core.Case, provID int) (map[int64]*blkDesc, bool) {
+	for _, op := range c.Ops {
+		f := strings.Fields(op)
+		if len(f) > 0 && f[0] == "prov" {
+			m := kv(op)
+			if id, _ := natOf(m, "id"); id == provID {
+				if _, has := m["ov"]; has {
+					return nil, false
+				}
+				if _, has := m["late"]; has {
+					return nil, false
+				}
+				table, _ := e.blkList(m["blocks"])
+				at := map[int64]*blkDesc{}
+				for _, b := range table {
+					at[b.h] = b
+				}
+				return at, true
+			}
+		}
+	}
+	return nil, false
+}
+
+func (e *env) checkEvidence(c core.Case, opIdx int, er evRec) []core.Finding {
+	at, plain := e.provTable(c, er.recv)
+	if !plain {
+		return nil
+	}
+	ev := er.ev
+	common, trusted := at[ev.CommonHeight], at[ev.ConflictingBlock.Height]
+	if common == nil || trusted == nil {
+		return nil // e.g. forward lunatic attack: the node would fall back to its latest block
+	}
+	ocount("evidence-checked-against-receiver-chain")
+	mk := func(field, why string) []core.Finding {
+		return []core.Finding{{Fingerprint: "light.newLightClientAttackEvidence.wrong-" + field,
+			Desc: fmt.Sprintf("op %d: evidence sent to provider %d (conflicting %d:%d, common height %d) would be rejected by a full node on that provider's chain: %s",
+				opIdx, er.recv, ev.ConflictingBlock.Height, e.hdrID(ev.ConflictingBlock.Hash()), ev.CommonHeight, why)}}
+	}
+	if !ev.Timestamp.Equal(common.lb.Time) {
+		return mk("Timestamp", fmt.Sprintf("evidence time %v is not the time %v of the block at its height", ev.Timestamp, common.lb.Time))
+	}
+	err := evidence.VerifyLightClientAttack(ev, common.fresh().SignedHeader, trusted.fresh().SignedHeader, common.fresh().ValidatorSet,
+		msTime(0), time.Hour)
+	if err == nil {
+		return nil
+	}
+	s := err.Error()
+	switch {
+	case strings.Contains(s, "total voting power from the evidence"):
+		return mk("TotalVotingPower", s)
+	case strings.Contains(s, "byzantine validator"), strings.Contains(s, "expected nil validators"):
+		return mk("ByzantineValidators", s)
+	case strings.Contains(s, "common height is the same as conflicting block height"):
+		return mk("CommonHeight", s)
+	}
+	// signature-level rejections (e.g. a lunatic header adjacent to the common block that the client
+	// verified through the next-validators hash, not through 1/3 of the common set) are counted only
+	ocount("evidence-rejected-for-other-reason")
+	return nil
 }
 
 // backs: the witness's block table (as served during this case) contains, for some trusted header
